@@ -133,7 +133,7 @@ func (s *gstream) settle(target int64, timeout time.Duration) bool {
 		s.mu.Lock()
 		pos, known := s.position(true)
 		sent := target < 0 || (known && pos >= target) || s.finished
-		consumed := s.idle && (len(s.queue) == 0 || s.allowed == 0)
+		consumed := (s.idle && (len(s.queue) == 0 || s.allowed == 0)) || (s.finished && len(s.queue) == 0) || s.broken
 		s.mu.Unlock()
 		if sent && consumed {
 			return true
@@ -153,13 +153,16 @@ type streamTarget interface {
 }
 
 type fakePool struct {
-	target  streamTarget
-	mu      sync.Mutex
-	streams []*gstream
-	newCh   chan *gstream
+	target         streamTarget
+	mu             sync.Mutex
+	streams        []*gstream
+	newCh          chan *gstream
+	defaultAllowed int // what a new stream lets through before the harness says otherwise
 }
 
-func newFakePool(t streamTarget) *fakePool { return &fakePool{target: t, newCh: make(chan *gstream, 16)} }
+func newFakePool(t streamTarget) *fakePool {
+	return &fakePool{target: t, newCh: make(chan *gstream, 16)}
+}
 
 func (p *fakePool) Close() error { return nil }
 func (p *fakePool) GetClientRpc(string) (proto.OxiaClientClient, error) {
@@ -188,6 +191,7 @@ func (c *fakeClient) GetNotifications(ctx context.Context, in *proto.Notificatio
 		start = &v
 	}
 	s := newGStream(ctx, start)
+	s.allowed = c.p.defaultAllowed
 	c.p.mu.Lock()
 	c.p.streams = append(c.p.streams, s)
 	c.p.mu.Unlock()
@@ -226,6 +230,15 @@ func (s *subscriber) connect(allowed int) (*gstream, error) {
 		s.cur = st
 		return st, nil
 	case err := <-s.done:
+		// the attempt is already over; if it got as far as opening a stream, the stream is what the step is about
+		select {
+		case st := <-s.pool.newCh:
+			s.done <- err
+			st.allow(allowed)
+			s.cur = st
+			return st, nil
+		default:
+		}
 		s.done = nil
 		return nil, err
 	case <-time.After(opTimeout):
